@@ -241,11 +241,14 @@ def copy_tree(src, dst):
 
 
 def load_findings(prop):
-    p = os.path.join(VERIF, "known_findings.json")
-    if not os.path.exists(p):
-        return []
-    d = json.load(open(p))
-    return [f for f in d.get("findings", []) if prop in f.get("properties", [f.get("property")]) and f.get("status") == "open"]
+    out = []
+    # VERIF_FINDINGS_EXTRA is a development aid only (proposed entries not merged yet); registered
+    # commands never set it.
+    for p in [os.path.join(VERIF, "known_findings.json")] + [x for x in os.environ.get("VERIF_FINDINGS_EXTRA", "").split(":") if x]:
+        if os.path.exists(p):
+            d = json.load(open(p))
+            out += [f for f in d.get("findings", []) if prop in f.get("properties", []) and f.get("status") == "open"]
+    return out
 
 
 def match_finding(findings, sig):
